@@ -120,10 +120,10 @@ prop("C02", [
 
 prop("C03", [
     dict(engine="verus", unit="dnsreply", fns=["DnsListenerHandler::create_in_reply"]),
-    dict(engine="verus", unit="dnsser", fns=["push_rr", "push_u16", "push_u32", "push_label", "push_str"]),
-    # the upstream reply as decoded: header bits, and the response code's upper bits from the first version-0 OPT record
-    dict(engine="verus", unit="dnsparse", fns=["PktParser::get_dns"]),
-    dict(engine="verus", unit="outq", fns=["create_outquery"]),
+    dict(engine="verus", unit="dnsser", fns=["push_rr", "push_u16", "push_u32", "push_label", "push_str", "make_edns_opt", "EdnsData::push_opt", "lemma_record_roundtrip", "lemma_rr_tail"]),
+    # the upstream reply as decoded: header bits, the response code's upper bits from the first version-0 OPT record, every record field
+    dict(engine="verus", unit="dnsparse", fns=["PktParser::get_dns", "PktParser::get_rr", "PktParser::get_rdata", "PktParser::get_type", "PktParser::get_class", "PktParser::get_u32", "PktParser::get_u16", "PktParser::get_u8", "PktParser::get_bytes", "PktParser::get_string", "PktParser::get_domain", "PktParser::get_domain_into", "PktParser::get_question", "EdnsParser::get_options", "EdnsParser::get_option", "EdnsParser::get_u16", "EdnsParser::get_u8", "EdnsData::set_opt", "Label::from_vec", "Domain::from_labels"]),
+    dict(engine="verus", unit="outq", fns=["create_outquery", "OutQuery::handle_query_internal"]),
     # "the upstream reply" is the reply to THIS question: a reply served from the cache was obtained for a query with the same
     # name, type, DO and CD bits in class IN (other classes never use the map), aged and otherwise unchanged
     dict(engine="verus", unit="cache", fns=["CacheHandler::handle_query", "CacheHandler::get_entry", "clone_with_ttl_decrement_out_reply", "clone_out_reply"]),
@@ -153,8 +153,8 @@ prop("C05", [
     dict(engine="verus", unit="pktbuf"),
     dict(engine="verus", unit="icmpparse", fns=["parse", "parse_nd_rtr_options", "parse_nd_rtr_solicit", "parse_nd_rtr_advert", "pref64_prefixlen", "NDOptions::add_option"]),
     dict(engine="verus", unit="dhcpparse"),
-    dict(engine="verus", unit="dnsser", fns=["push_u16", "push_u32", "push_label", "push_str", "make_edns_opt", "push_rr", "DNSPkt::serialise", "DNSPkt::serialise_with_size"]),
-    dict(engine="verus", unit="dhcphandlers", fns=["to_array", "handle_pkt", "handle_discover", "handle_request"]),
+    dict(engine="verus", unit="dnsser", fns=["push_u16", "push_u32", "push_label", "push_str", "make_edns_opt", "EdnsData::push_opt", "push_rr", "DNSPkt::serialise", "DNSPkt::serialise_with_size"]),
+    dict(engine="verus", unit="dhcphandlers", fns=["to_array", "handle_pkt", "handle_discover", "handle_request", "Pool::allocate_address", "Pool::select_address", "Pool::select_new_address", "Pool::select_requested_address"]),
     # served-from-cache path: `x.ttl - decrement` cannot underflow (precondition of clone_with_ttl_decrement discharged from the
     # cache invariant, which rests on get_expiry == min TTL, checked bounded by Kani)
     dict(engine="verus", unit="cache", fns=["CacheHandler::get_entry", "CacheHandler::insert_cache_entry", "CacheHandler::calculate_expiry", "CacheHandler::handle_query", "clone_with_ttl_decrement_out_reply", "clone_out_reply"]),
@@ -179,8 +179,9 @@ prop("C06", [
 
 prop("C14", [
     dict(engine="verus", unit="dnsser", fns=["lemma_header_roundtrip", "lemma_record_roundtrip", "lemma_rr_tail", "DNSPkt::serialise_with_size", "push_rr", "push_label", "push_str", "push_u16", "push_u32", "make_edns_opt", "EdnsData::push_opt"]),
-    dict(engine="verus", unit="dnsparse", fns=["PktParser::get_dns", "PktParser::get_domain", "PktParser::get_domain_into", "PktParser::get_rr", "PktParser::get_rdata", "PktParser::get_type", "PktParser::get_class", "PktParser::get_u32",
-                                               "PktParser::get_question", "lemma_pointer_budget_covers_every_name"]),
+    dict(engine="verus", unit="dnsparse", fns=["PktParser::get_dns", "PktParser::get_domain", "PktParser::get_domain_into", "PktParser::get_rr", "PktParser::get_rdata", "PktParser::get_type", "PktParser::get_class", "PktParser::get_u32", "PktParser::get_u16", "PktParser::get_u8", "PktParser::get_bytes", "PktParser::get_string",
+                                               "EdnsParser::get_options", "EdnsParser::get_option", "EdnsParser::get_u16", "EdnsParser::get_u8", "EdnsData::set_opt", "Label::from_vec", "Domain::from_labels",
+                                               "PktParser::get_question", "lemma_pointer_budget_covers_every_name", "lemma_enc_opts_prefix", "lem_be16_bytes"]),
     dict(engine="kani", sets=["dns_compress"]),
 ], explanation="(a) header/flag bits: encoder contract (octets 2,3 = flag1_of/flag2_of) and decoder contract (fields = bit tests on octets 2,3) compose to the identity (lemma, all messages); "
                "(b) what the decoder accepts the encoder can encode (pkt_wf) and the encoder's counts/size contract; (b') one record: after the owner name the encoder writes type, class, TTL, an RDLENGTH that counts the rdata it wrote and opaque rdata verbatim, "
@@ -232,7 +233,7 @@ prop("C11", [
 
 prop("C12", [
     dict(engine="kani", sets=["dhcp_flag", "net_packet", "dhcp_ser"]),
-    dict(engine="verus", unit="dhcpparse", fns=["parse", "parse_options", "null_terminated"]),
+    dict(engine="verus", unit="dhcpparse"),      # parse, parse_options, null_terminated and the Buffer primitives they read through
     dict(engine="verus", unit="dhcpser"),
     dict(engine="verus", unit="frame"),
 ], explanation="Ethernet/IPv4/UDP frame builder: bytes == eth ++ ip_hdr ++ udp_hdr ++ payload with RFC fields, both checksums computed over the right octets and verifying (lemmas), destination = limited broadcast iff broadcast bit; DHCP option encoder == RFC 2132/3396 encoding (split at 255, zero-length kept) for every table, and its decoding by dec_opts gives back the table (lemma); broadcast flag over all 65536 values; one's-complement fold complete over all u32 sums, word summation bounded; DHCP decoder == RFC decoding spec (dec_opts) for all byte strings")
